@@ -204,7 +204,7 @@ def check_upper(case):
         cond = procs.conditions_spec(case, s, dt)
         m, e1 = _traced(pv, lambda: procs.run(case, s, dt, cond_spec=cond))
         s2 = procs.Setup()
-        s2.pv, s2.curves, s2.initial = pv2, None, None
+        s2.pv, s2.curves, s2.initial, s2.mix = pv2, None, None, twin
         m2, e2 = _traced(pv2, lambda: procs.run(case, s2, dt, cond_spec=dict(cond, x=1.0 - cond["x"])))
         def borderline(model):
             """The look-ahead state after the last reported step sits on the validity boundary to rounding (legitimate flip)."""
